@@ -18,17 +18,19 @@ judge : the property text evaluated on the REAL scheduler's message log (`msgs`:
       is that outcome (succeeded; failed or waiting-for-retry; submit-failed or waiting-for-retry) with
       submitted/started/the outcome complete, and every custom output the job delivered is complete.
 
-Poll results are believed unconditionally by cylc-flow.  Two consequences are recorded findings
-(findings/C10.json), each recognised by its exact shape: `stale-poll` — the poll result of an older
-job of the task (polls carry no submit number) changes the current job's task; `late-poll` — a poll
-result of the current job that was overtaken by job messages takes a finished task back.
+  (a') stale poll results: the result of a jobs-poll command for an older job of the task (op `pollres`
+      with a submit number below the pooled task's) changes nothing.
+
+A poll result of the CURRENT job is believed unconditionally by cylc-flow; one that was overtaken by job
+messages can take a finished task back: recorded finding `late-poll` (findings/C10.json), recognised by
+its exact shape.
 -/
 import CylcModel.MsgJson
 open Lean CylcModel.Drv CylcModel.Sched CylcModel.Msg
 
 namespace CylcModel.DrvC10
 
-def findingKeys : List String := ["late-poll", "stale-poll"]
+def findingKeys : List String := ["late-poll"]
 
 def sameState (a b : Snap) : Bool := a.st == b.st && a.sn == b.sn && a.out == b.out
 
@@ -45,12 +47,6 @@ def judgeObs (idx : Nat) (ob : Json) : List String :=
   | some recs =>
     recs.filterMap fun r =>
       if r.d != 0 || r.tr || r.forced then none
-      else if r.fl == "polled" then
-        -- a poll result of an older job of the task (poll results carry no submit number in cylc-flow)
-        if r.sn < r.b.sn && !(sameState r.a r.b) then
-          some (s!"stale-poll: obs {idx}: {r.p}/{r.n} poll result '{r.m}' of old job {r.sn} (current job {r.b.sn}) " ++
-                s!"changed the task: {r.b.st} {r.b.out} -> {r.a.st} {r.a.out}")
-        else none
       else if r.fl != "received" then none
       else if r.sn < r.b.sn then
         if sameState r.a r.b && !r.r then none
@@ -89,7 +85,7 @@ def evOf (op : Json) : Option Ev := do
   match kind with
   | "subres" => pure { p, n, sn, kind, text := if (jBoolField? op "ok").getD true then "submitted" else "submission failed" }
   | "msg" => pure { p, n, sn, kind, text := ← jStrField? op "msg" }
-  | "poll" => pure { p, n, sn, kind, text := ← jStrField? op "msg" }
+  | "pollres" => pure { p, n, sn, kind, text := ← jStrField? op "state" }
   | _ => none
 
 def isOutcome (t : String) : Bool := t == "succeeded" || t == "failed" || t == "submission failed"
@@ -140,7 +136,7 @@ def judgeConverge (ts : List TInfo) (ops obs : List Json) : List String :=
               else if cur.any (fun r => r.m == msg && r.inPool) then some trig else none
         let lastChange := (cur.filter fun r => r.a.st != r.b.st).getLast?
         let pre := match lastChange with
-          | some r => if r.fl == "polled" && r.m != o then (if r.sn < r.b.sn then "stale-poll: " else "late-poll: ") else ""
+          | some r => if r.fl == "polled" && r.m != o then "late-poll: " else ""
           | none => ""
         if !want.contains f.st then
           some s!"{pre}{k.1}/{k.2} job {sn} actually {o}, but the task ends {f.st} (outputs {f.out})"
@@ -151,6 +147,31 @@ def judgeConverge (ts : List TInfo) (ops obs : List Json) : List String :=
         else none
     | _, _ => none
 
+/-- (a'): a poll result of an older job leaves the pooled task as it was -/
+def judgeStalePolls (ops obs : List Json) : List String :=
+  let rec go (idx : Nat) : List Json → List Json → List String
+    | op :: ops, prev :: ob :: rest =>
+      let here : List String :=
+        match evOf op with
+        | some e =>
+          if e.kind != "pollres" then [] else
+          match (poolObs prev).bind (·.find? fun x => x.p == e.p && x.n == e.n),
+                (poolObs ob).map (·.find? fun x => x.p == e.p && x.n == e.n) with
+          | some x, some after =>
+            if e.sn < x.sn then
+              match after with
+              | some y =>
+                if y.st == x.st && y.sn == x.sn && y.out == x.out then []
+                else [s!"obs {idx}: {e.p}/{e.n} poll result '{e.text}' of old job {e.sn} (current job {x.sn}) changed " ++
+                      s!"the task: {x.st} {x.out} -> {y.st} {y.out}"]
+              | none => [s!"obs {idx}: {e.p}/{e.n} poll result '{e.text}' of old job {e.sn} removed the task"]
+            else []
+          | _, _ => []
+        | none => []
+      here ++ go (idx + 1) ops (ob :: rest)
+    | _, _ => []
+  go 1 ops obs
+
 def judge (i o : Json) : Option String :=
   let ts := tinfos ((jField? i "graph").getD Json.null)
   let obs := obsList o
@@ -158,7 +179,7 @@ def judge (i o : Json) : Option String :=
   let rec go (idx : Nat) : List Json → List String
     | [] => []
     | ob :: rest => judgeObs idx ob ++ go (idx + 1) rest
-  pickFailure findingKeys (go 0 obs ++ judgeConverge ts ops obs)
+  pickFailure findingKeys (go 0 obs ++ judgeStalePolls ops obs ++ judgeConverge ts ops obs)
 
 def handle (i o : Json) : Except String Reply := do
   if let some r := crashReply? i then return r
